@@ -193,13 +193,16 @@ def make_font(tape, idx):
     name = b"VerifFont%d" % idx
     if kind == "type1":
         first = t.pick([32, 65, 0], "font.first")
-        n = 128 - first
+        last = t.pick([127, 127, 255, 255, first + 9], "font.last")
+        n = last + 1 - first
         widths = {first + i: F(125 * t.rint(0, 8, "font.w")) for i in range(n)}  # 0 is a legal width
         descent = F(-25 * t.rint(0, 12, "font.descent"))
         missing = F(125 * t.rint(0, 4, "font.missing"))
         fd = {b"Type": Name(b"FontDescriptor"), b"FontName": Name(name), b"Flags": 32, b"Ascent": 750, b"Descent": int(descent), b"MissingWidth": int(missing), b"FontBBox": [0, int(descent), 1000, 750], b"ItalicAngle": 0, b"CapHeight": 700, b"StemV": 80}
-        obj = {b"Type": Name(b"Font"), b"Subtype": Name(t.pick([b"Type1", b"TrueType", b"MMType1"], "font.subtype")), b"BaseFont": Name(name), b"FirstChar": first, b"LastChar": 127, b"Widths": [int(widths[first + i]) for i in range(n)], b"FontDescriptor": fd}
-        return Font("type1", name.decode(), widths, first, descent, missing, obj=obj)
+        obj = {b"Type": Name(b"Font"), b"Subtype": Name(t.pick([b"Type1", b"TrueType", b"MMType1"], "font.subtype")), b"BaseFont": Name(name), b"FirstChar": first, b"LastChar": last, b"Widths": [int(widths[first + i]) for i in range(n)], b"FontDescriptor": fd}
+        f = Font("type1", name.decode(), widths, first, descent, missing, obj=obj)
+        f.last = last
+        return f
     if kind == "type3":
         k = t.pick([512, 1024, 256], "font.t3scale")
         first = 65
